@@ -81,6 +81,44 @@ Theorem C12_path : forall rest visited p,
 Proof. exact chain_delivered_iff. Qed.
 Print Assumptions C12_path.
 
+(* rule installation (AddFirewallRules(rules, clearExisting)): after any history the rules in
+   force are those of the last clearing call followed by everything appended since; without a
+   clearing call everything is appended in order; replacing by the empty set accepts everything *)
+Theorem C12_install_after_clear : forall (A : Type) (h1 : list (list A * bool)) cur new h2,
+  install_all cur (h1 ++ (new, true) :: h2) = install_all new h2.
+Proof. exact install_after_clear. Qed.
+Print Assumptions C12_install_after_clear.
+
+Theorem C12_install_appends : forall (A : Type) (h : list (list A * bool)) cur,
+  forallb (fun x => negb (snd x)) h = true -> install_all cur h = cur ++ concat (map fst h).
+Proof. exact install_appends. Qed.
+Print Assumptions C12_install_appends.
+
+Theorem C12_cleared_accepts_all : forall cur h1 self p,
+  node_handle self (install_all cur (h1 ++ [([], true)])) p = [(p, None)].
+Proof. exact cleared_accepts_all. Qed.
+Print Assumptions C12_cleared_accepts_all.
+
+(* handleMessageData to its end (delivery, ping reply, "service unknown", forwarding, expiry):
+   every packet that leaves the node because of [p] — [p] itself, a ping reply, any notice the
+   node originates — was accepted by the node's first matching rule *)
+Theorem C12_originated_packets_filtered : forall self rules p listening hops q n,
+  In (q, n) (node_full self rules p listening hops) -> passes rules q = true.
+Proof. exact node_full_passes_thm. Qed.
+Print Assumptions C12_originated_packets_filtered.
+
+Theorem C12_node_full_plain : forall self rules p,
+  beq_text (p_toservice p) svc_ping = false ->
+  node_full self rules p true true = node_handle self rules p.
+Proof. exact node_full_plain. Qed.
+Print Assumptions C12_node_full_plain.
+
+Theorem C12_ping_self : forall self eph rules,
+  (ping_self self eph rules = PingReply <->
+   passes rules (mkPkt self eph self svc_ping) = true /\ passes rules (mkPkt self svc_ping self eph) = true).
+Proof. exact ping_self_spec. Qed.
+Print Assumptions C12_ping_self.
+
 (* a rule set containing anything uninterpretable is refused, whatever Go's regexp parser [gp]
    answers on the patterns; and parsing never panics *)
 Theorem C12_bad_rules_refused : forall gp rules,
